@@ -58,8 +58,8 @@ theorem const_of {t : Term} {v w : Nat} (h : isBvConst t = some v) (hwf : t.wf =
 /-- a bit-vector constant as result -/
 theorem Res.bvc {t : Term} {w v : Nat} (hv : v < 2 ^ w)
     (h : ∀ I : Interp, I.WF → eval I t = .bv w v) : Res t (.bv w) (Term.bvc v w) :=
-  ⟨typeOf_bvc v w, wf_bvc hv, fun I hI _ => ⟨by rw [eval_bvc, h I hI], div0_bvc I v w⟩,
-    by rw [fv_bvc]; intro s hs; cases hs⟩
+  Res.of_hyp (typeOf_bvc v w) (wf_bvc hv) (fun I hI _ => by rw [eval_bvc, h I hI]) (fun I _ _ => div0_bvc I v w)
+    (by rw [fv_bvc]; intro s hs; cases hs)
 
 /-! ## the number a bit-vector term denotes -/
 
